@@ -271,10 +271,14 @@ def _model(seed, double=False):
         s.set_R_mat(key, 0.5 * (X + s.rvec.conj_XX_R(X)), reset=True)
     if double:
         s.double_spin()          # every band twice: exact two-fold degeneracies everywhere
-        if double == "mixed":    # ... with a position matrix that couples the two copies: the members of a pair differ in everything but energy
+        if double in ("mixed", "split"):    # ... with a position matrix that couples the two copies: the members of a pair differ in everything but energy
             nR, nw = s.rvec.nRvec, s.num_wann
             A = rnp.random.rand(nR, nw, nw, 3) + 1j * rnp.random.rand(nR, nw, nw, 3)
             s.set_R_mat("AA", 0.5 * (A + s.rvec.conj_XX_R(A)), reset=True)
+        if double == "split":    # ... and every pair split by 5e-4 eV: above the calculators' degeneracy threshold (1e-4), so NOT a multiplet
+            H = s.get_R_mat("Ham").copy()
+            H[s.rvec.iR0] += rnp.diag([2.5e-4 * (-1) ** i for i in range(s.num_wann)])
+            s.set_R_mat("Ham", H, reset=True)
     return s
 
 
@@ -319,6 +323,14 @@ def _real_periodic_gauge(rng, n):
             e0 = wb.evaluate_k(s3, k=k, quantities=q2, return_single_as_dict=True)
             e1 = wb.evaluate_k(s3, k=k, quantities=q2, return_single_as_dict=True, parameters_K={"random_gauge": True})
             e2 = wb.evaluate_k(s3, k=k + G, quantities=q2, return_single_as_dict=True)
+        with contextlib.redirect_stdout(io.StringIO()):
+            s4 = _model(seed + 3, double="split")
+            f0 = wb.evaluate_k(s4, k=k, quantities=q2, return_single_as_dict=True)
+            f1 = wb.evaluate_k(s4, k=k, quantities=q2, return_single_as_dict=True, parameters_K={"random_gauge": True})
+        for q in q2:
+            if not rnp.allclose(f0[q], f1[q], atol=1e-6 * (1 + abs(f0[q]).max())):
+                bad.append("%s: random_gauge (default thresholds) on a model whose pairs are split by 5e-4 eV -- more than the calculators' degeneracy threshold -- changes the band-by-band values by %.2e: "
+                           "the random gauge mixes what the calculators treat as separate bands" % (q, abs(f0[q] - f1[q]).max()))
         for q in q2:
             for nm, y in (("random_gauge", e1[q]), ("k vs k+G", e2[q])):
                 if not rnp.allclose(e0[q], y, atol=1e-6 * (1 + abs(e0[q]).max())):
